@@ -37,7 +37,7 @@ COMPONENTS = {
     'stub': common.COMPONENTS['stub'],
 }
 ASSUMPTIONS = ['FIFO ready queue', 'hooks are probed in the generated subclasses before delegating to super()']
-EXPECTED_COUNTERS = ['probe:waiting_step_interrupted', 'probe:callback_on_parent', 'probe:step', 'probe:after_await', 'probe:callback', 'probe:hook', 'probe:after_nested', 'probe:launched',
+EXPECTED_COUNTERS = ['probe:started_in_step_finished_at_top_level', 'probe:waiting_step_interrupted', 'probe:callback_on_parent', 'probe:step', 'probe:after_await', 'probe:callback', 'probe:hook', 'probe:after_nested', 'probe:launched',
                      'sample:between_handles', 'sample:inside_nested', 'interleaved_runs', 'nested_depth2']
 HOOK_OUTPUT = ('on_output_emitting', 'on_output_emitted')
 
